@@ -82,10 +82,24 @@ def adjacency(spec):
     ins, outs = {}, {}
     for nd in spec["nodes"]:
         ins[nd["name"]], outs[nd["name"]] = [], []
-    for l in spec["links"]:
+    for l in G.effective_links(spec):  # start / end AFTER the spec's topology edits (reverse_link, end-node setters)
         ins[l["end"]].append(l["name"])
         outs[l["start"]].append(l["name"])
     return ins, outs
+
+
+def reversal_specs(ctx, n):
+    """C01 family: random networks (one per three with a tank forced by retrying) whose links are reversed with
+    wntr.morph.link.reverse_link / re-assigned through the Link.start_node / end_node setters before simulating"""
+    rng = ctx.rng
+    out = []
+    for i in range(n):
+        for _ in range(6):
+            spec = G.random_network(rng, quick=True, force={"n_nodes": rng.choice([3, 4, 5, 6, 8, 10])})
+            if i % 2 == 1 or any(nd["type"] == "tank" for nd in spec["nodes"]):
+                break
+        out.append(G.add_reversal_edits(rng, spec))
+    return out
 
 
 def run_sim_capture(wntr, spec):
@@ -151,7 +165,11 @@ def features(spec):
     for l in spec["links"]:
         k = frozenset((l["start"], l["end"]))
         pairs[k] = pairs.get(k, 0) + 1
+    elinks = G.effective_links(spec)
     f = {
+        "reversed_links": any(e["op"] == "reverse" for e in spec.get("edits", [])),
+        "end_node_reassigned": any(e["op"] != "reverse" for e in spec.get("edits", [])),
+        "end_node_reassigned_to_tank": any(e["op"] != "reverse" and e["node"] in tanks for e in spec.get("edits", [])),
         "loop": len(spec["links"]) >= len(spec["nodes"]),
         "parallel": any(v > 1 for v in pairs.values()),
         "multi_source": len(srcs) >= 2,
@@ -161,7 +179,7 @@ def features(spec):
         "multi_category": any(len(n.get("demands", [])) >= 2 for n in spec["nodes"]),
         "leak_junction": any(n["type"] == "junction" and n.get("leak") for n in spec["nodes"]),
         "leak_tank": any(n["type"] == "tank" and n.get("leak") for n in spec["nodes"]),
-        "link_into_tank": any(l["end"] in tanks for l in spec["links"]),
+        "link_into_tank": any(l["end"] in tanks for l in elinks),
         "piecewise": spec.get("hw_approx") == "piecewise",
         "pattern_start": spec["options"]["pattern_start"] != 0,
         "demand_multiplier": spec["options"]["demand_multiplier"] != 1.0,
